@@ -3,6 +3,7 @@ C21 — property theorems (generic over the schema; the generated tg/mt/e2e type
 instances on which the driver evaluates `Schema.wf` on every run).
 -/
 import TdModel.Lemmas.C21
+import TdModel.Lemmas.C21Dec
 
 namespace TdModel.C21
 open TdModel TdModel.Bin
@@ -20,6 +21,23 @@ theorem tl_reencode_identical (S : Schema) (hwf : S.wf = true) (t : Ty) (v : Val
     (henc : encTy S t v = some e) :
     ∃ v' r, decTy S v.size t (e ++ rest) = .ok (v', r) ∧ r = rest ∧ encTy S t v' = some e :=
   ⟨v, rest, tl_roundtrip S hwf t v e rest v.size henc (Nat.le_refl _), rfl, henc⟩
+
+/-- Arbitrary input: whatever bytes the decoder accepts (any schema, any type, any fuel), it has
+consumed only a prefix of the input (`rest` is a suffix of `b`: nothing outside the buffer is
+read) and the result is a well-typed value: `Encode` accepts it. -/
+theorem tl_decoded_is_value (S : Schema) (fuel : Nat) (t : Ty) (b : Bytes) (v : Val) (rest : Bytes)
+    (h : decTy S fuel t b = .ok (v, rest)) : rest <:+ b ∧ ∃ e, encTy S t v = some e := by
+  obtain ⟨h1, h2⟩ := (dec_ok_all S fuel).1 t b v rest h
+  exact ⟨h1, isSome_some h2⟩
+
+/-- … and its canonical re-encoding is a fixed point: it decodes to the same value (with any
+trailing bytes left untouched), so decode → encode → decode → encode yields identical bytes even
+when the original input was not canonical (non-zero padding, long-form short strings). -/
+theorem tl_decode_reencode_stable (S : Schema) (hwf : S.wf = true) (fuel : Nat) (t : Ty) (b : Bytes)
+    (v : Val) (rest : Bytes) (h : decTy S fuel t b = .ok (v, rest)) :
+    ∃ e, encTy S t v = some e ∧ ∀ rest', decTy S v.size t (e ++ rest') = .ok (v, rest') := by
+  obtain ⟨_, e, he⟩ := tl_decoded_is_value S fuel t b v rest h
+  exact ⟨e, he, fun rest' => tl_roundtrip S hwf t v e rest' v.size he (Nat.le_refl _)⟩
 
 /-- The model's decoder has exactly two outcomes (a value or an error class); there is no
 panic outcome for any bytes, any type, any schema (also ill-formed ones). -/
